@@ -25,6 +25,8 @@ func init() {
 			{ID: "C10.R5", Floor: 8, Run: c05r1, Text: "dead relation target (= C05.R1): every API-supplied target passes the zero-or-alive validation before it is stored, compared or used as a key, so that a dead target panics on every path, including no-op paths"},
 			{ID: "C10.R4", Floor: 20, Run: c10r4, Text: "option-pair discipline: a read of the value field of a value/flag pair that is compared, has its address taken, is returned or passed on alone lies where the flag of the same base is known true; otherwise it travels with the flag (paired copy or paired pass)"},
 			{ID: "C10.R6", Floor: 3, Run: c03r5, Text: "batch range consumption (= C03.R5): index arithmetic over a batch query uses the recorded [StartIndex, EndIndex) ranges, so an index past the batch is rejected instead of returning a row outside it"},
+			{ID: "C10.R7", Floor: 1, Run: noDeferredEffects, Text: "no deferred state change (= C09.R10): a refused operation must not take effect through a defer"},
+			{ID: "C10.R8", Floor: 3, Run: cacheNeverRecycles, Text: "filter ids are never recycled: no method of Cache calls intPool.Recycle (a CachedFilter handle has no generation, so a stale handle must stay invalid)"},
 		},
 	})
 }
